@@ -1414,3 +1414,103 @@ def make_L15b():
 
 
 L15b = make_L15b()
+
+
+# ---------------------------------------------------------------- C20: --fix_only through the real apply_rules on corpus files
+def run_one(text, fix_only, conf_rules=None):
+    d = tempfile.mkdtemp(prefix="fo", dir=os.path.join(os.path.dirname(CORPUS), ".scratch"))
+    try:
+        pth = os.path.join(d, "f.vhd")
+        with open(pth, "w", encoding="utf-8") as f:
+            f.write("\n".join(text) + "\n")
+        cla = SeqCLA(fix=True)
+        cla.filename = [pth]
+        conf = config.New(cla)
+        if conf_rules is not None:
+            conf.dConfig = dict(conf.dConfig)
+            conf.dConfig["rule"] = conf_rules
+        conf.dFixOnly = fix_only
+        st = AR_real.apply_rules(cla, conf, (0, pth))
+        return open(pth, encoding="utf-8").read().split("\n")[:-1], bool(st[0])
+    finally:
+        shutil.rmtree(d, ignore_errors=True)
+
+
+_ALL_RULE_IDS = []
+
+
+def all_rule_ids():
+    if not _ALL_RULE_IDS:
+        o = vhdlFile_pkg.vhdlFile([""])
+        _ALL_RULE_IDS.extend(r.unique_id for r in rule_list.rule_list(o, get_conf2("default").severity_list).rules if not rule_list.is_rule_deprecated(r))
+    return _ALL_RULE_IDS
+
+
+def fixonly_pipeline(eng, p):
+    fixture = p["fixture"]
+    text = read_fixture(fixture)
+    os.makedirs(os.path.join(os.path.dirname(CORPUS), ".scratch"), exist_ok=True)
+    vb = violations_by_line(fixture)
+    rules = sorted(set(r for rs in vb.values() for r in rs))
+    later = [r for r in rules if r.split("_")[0] not in ("whitespace",)]  # candidates for a one-rule selection
+    if not rules:
+        return True
+    mode = ["all_all", "nothing", "one_rule_plus_empty_entry", "only_that_rule_enabled"][eng.choose("mode", 4)]
+    clauses = []
+    if mode == "all_all":
+        plain, _ = run_one(text, None)
+        sel, _ = run_one(text, {"fix": {"rule": {r: ["all"] for r in all_rule_ids()}}})
+        clauses.append(("C20:all_rules_all_equals_plain_fix", plain == sel))
+    elif mode == "nothing":
+        sel, _ = run_one(text, {"fix": {"rule": {}}})
+        clauses.append(("C20:empty_selection_leaves_file_untouched", [ln.rstrip() for ln in sel] == [ln.rstrip() for ln in text]))
+    else:
+        rid = later[eng.choose("rule", min(3, len(later)))] if later else rules[0]
+        other = "whitespace_001" if rid != "whitespace_001" else "whitespace_002"
+        if mode == "one_rule_plus_empty_entry":
+            a, _ = run_one(text, {"fix": {"rule": {rid: ["all"]}}})
+            b, _ = run_one(text, {"fix": {"rule": {rid: ["all"], other: []}}})
+            clauses.append(("C20:entry_with_no_lines_changes_nothing", a == b))
+        else:
+            only = {"global": {"disable": True}, rid: {"disable": False}}
+            plain, _ = run_one(text, None, only)
+            sel, _ = run_one(text, {"fix": {"rule": {r: ["all"] for r in all_rule_ids()}}}, only)
+            clauses.append(("C20:all_rules_all_equals_plain_fix_when_one_rule_enabled", plain == sel))
+    return clauses
+
+
+def make_L20():
+    class L20(Harness):
+        name = "L20"
+        prop = "C20"
+        parallel_params = True
+        title = "--fix_only through the real config.New + apply_rules on corpus files: all-rules-all == plain --fix (also when only one rule is enabled), an empty selection leaves the file untouched, an entry that lists no lines changes nothing"
+        functions = ("vsg.apply_rules", "vsg.rule_list", "vsg.rule", "vsg.config", "vsg.vhdlFile")
+        stubs = L15b.stubs
+        assumptions = ()
+        bounds = "corpus fixtures (quick 16, thorough 160) x {all/all, empty selection, one reporting rule + an entry without lines, all/all with only that rule enabled} (engine-forked; the rule is one of up to 3 rules reporting on the fixture)"
+        outside = "selections of specific lines through the real pipeline (K20a covers the line filter)"
+        min_conclusive_share = 0.5
+        exception_props = ("C20", "C19")
+
+        def params(self, tier):
+            seed = int(os.environ.get("VERIF_SEED", "0") or 0) % NSEEDS
+            rnd = random.Random(20200 + seed)
+            n = 16 if tier == "quick" else 160
+            return [{"fixture": f, "_limits": {"shard_paths": 20}} for f in rnd.sample(ALL_FIXTURES, n)]
+
+        def run(self, eng, p):
+            return fixonly_pipeline(eng, p)
+
+        def describe(self, values, p):
+            return {"fixture": p["fixture"], "mode": ["all_all", "nothing", "one_rule_plus_empty_entry", "only_that_rule_enabled"][values.get("mode", 0)], "rule_index": values.get("rule")}
+
+        def signature(self, values, p, detail):
+            if detail.get("kind") == "exception":
+                return l_signature(values, p, detail)
+            return "vc:" + ",".join(sorted(detail.get("failed", []))) + "|" + os.path.basename(p["fixture"])
+
+    return register(L20)
+
+
+L20 = make_L20()
